@@ -17,7 +17,8 @@ META = {
 
 DEST = ['absent', 'file', 'dir', 'link-file', 'link-dir', 'dangling', 'empty-dir']
 SELECT = ['single', 'other-then-colliding', 'colliding-then-other', 'range', 'same-path-twice-range', 'same-path-twice-list',
-          'single-path-through-link-dotdot', 'single-path-through-missing-dir-dotdot', 'single-name-with-a-literal-plus']
+          'single-path-through-link-dotdot', 'single-path-through-missing-dir-dotdot', 'single-name-with-a-literal-plus',
+          'single-path-through-missing-dir-dotdot-dot']
 NSEL = len(SELECT)
 LAYOUTS = ['home', 'top', 'alt']
 
@@ -50,6 +51,10 @@ def scenario(dest, kind, overwrite, select, layout):
         # Path=<base>/gone/../x where <base>/gone does not exist: the kernel cannot resolve the spelling (lexists is
         # False) although <base>/x, which it designates once the parent has been created, does exist
         shown = base + '/gone/../x'
+    if SELECT[select] == 'single-path-through-missing-dir-dotdot-dot':
+        # the same with a '.' after the '..' (<base>/gone/.././x): os.makedirs of the parent '<base>/gone/../.' ends in '.',
+        # creates <base>/gone and returns without an error - after which the spelling DOES resolve, to the occupied <base>/x
+        shown = base + '/gone/.././x'
     if lay == 'top':
         nodes.append(W.d('/v/.Trash', 0o1777))
     nodes += K.trashed(td, 'x', literal if literal is not None else K.quote(pv(shown)), '2020-01-02T00:00:00', K.KINDS[kind], 2000)
@@ -74,7 +79,8 @@ def scenario(dest, kind, overwrite, select, layout):
     # listing sorted by date: index 0 = other (01-01), index 1 = x (01-02)
     reply = {'single': '1', 'other-then-colliding': '0,1', 'colliding-then-other': '1,0', 'range': '0-1',
              'same-path-twice-range': '1-2', 'same-path-twice-list': '2,1', 'single-path-through-link-dotdot': '1',
-             'single-path-through-missing-dir-dotdot': '1', 'single-name-with-a-literal-plus': '1'}[SELECT[select]]
+             'single-path-through-missing-dir-dotdot': '1', 'single-name-with-a-literal-plus': '1',
+             'single-path-through-missing-dir-dotdot-dot': '1'}[SELECT[select]]
     args = ['--overwrite'] if overwrite else []
     steps = [{'snap': '/'}, C('restore', args, scen.env(), stdin=[reply], cwd=base), {'snap': '/'}]
     return world, steps, td, path, other, shown
@@ -183,7 +189,7 @@ def _case(dest, kind, overwrite, select, layout, envx=0):
                         scen.sub(after, td + '/info/x.trashinfo') == scen.sub(before, td + '/info/x.trashinfo'))
         pair_gone = scen.sub(after, td + '/files/x') is None and scen.sub(after, td + '/info/x.trashinfo') is None
         exists = DEST[dest] != 'absent'
-        missing_dir = SELECT[select] == 'single-path-through-missing-dir-dotdot'
+        missing_dir = SELECT[select].startswith('single-path-through-missing-dir-dotdot')
         if missing_dir and not (exists and not overwrite):
             return rt.ok()  # (whether such a spelling can be restored at all is not C06's business)
         if exists and not overwrite:
@@ -249,6 +255,6 @@ def obligations(tier):
                bounds='every environment variable the run consults beyond the documented ones (discovered by a probe run) set to 0 / no; 7 destination kinds x 6 entry kinds x 3 selections, no --overwrite'),
             CH('W_dest_kind_overwrite_select_layout', MOD, 'w_main', timeout=900, partitions=list(range(7)),
                engine='W', regime='selector', encodes=K.RESTORE_FUNCS, stubs=K.STUBS,
-               bounds='7 destination kinds x 6 entry kinds x overwrite x 9 selections (incl. a name with a literal +, a Path through a missing directory and dot-dot, two generations of the same path in one selection, and a Path spelled through a symlinked directory and dot-dot) x 3 layouts'),
+               bounds='7 destination kinds x 6 entry kinds x overwrite x 10 selections (incl. a name with a literal +, a Path through a missing directory and dot-dot - also followed by a dot -, two generations of the same path in one selection, and a Path spelled through a symlinked directory and dot-dot) x 3 layouts'),
             CH('W_put_then_restore_onto_an_occupied_location', MOD, 'w_put_restore', timeout=300, engine='W', regime='selector', encodes=K.PUT_FUNCS + K.RESTORE_FUNCS, stubs=K.STUBS,
                bounds='the entry is trashed by the real trash-put from 5 directories whose names consist of characters of the mount point path x 2 mount points x location occupied again or not x .Trash sticky or absent')]
